@@ -489,16 +489,18 @@ def Instr.aliases : Instr → List (List Tok)
   | .branch .bge rs1 rs2 off => [[.word "ble", .reg rs2, .reg rs1, .imm off]]
   | .branch .bltu rs1 rs2 off => [[.word "bgtu", .reg rs2, .reg rs1, .imm off]]
   | .branch .bgeu rs1 rs2 off => [[.word "bleu", .reg rs2, .reg rs1, .imm off]]
-  | .csr .rs rd 0 c =>
-      [[.word "csrr", .reg rd, .csr c]]
-      ++ (if c = 0xC00 then [[.word "rdcycle", .reg rd]] else [])
-      ++ (if c = 0xC80 then [[.word "rdcycleh", .reg rd]] else [])
-      ++ (if c = 0xC01 then [[.word "rdtime", .reg rd]] else [])
-      ++ (if c = 0xC81 then [[.word "rdtimeh", .reg rd]] else [])
-      ++ (if c = 0xC02 then [[.word "rdinstret", .reg rd]] else [])
-      ++ (if c = 0xC82 then [[.word "rdinstreth", .reg rd]] else [])
+  | .csr .rs rd rs1 c =>
+      (if rs1 = 0 then
+        [[.word "csrr", .reg rd, .csr c]]
+        ++ (if c = 0xC00 then [[.word "rdcycle", .reg rd]] else [])
+        ++ (if c = 0xC80 then [[.word "rdcycleh", .reg rd]] else [])
+        ++ (if c = 0xC01 then [[.word "rdtime", .reg rd]] else [])
+        ++ (if c = 0xC81 then [[.word "rdtimeh", .reg rd]] else [])
+        ++ (if c = 0xC02 then [[.word "rdinstret", .reg rd]] else [])
+        ++ (if c = 0xC82 then [[.word "rdinstreth", .reg rd]] else [])
+       else [])
+      ++ (if rd = 0 then [[.word "csrs", .csr c, .reg rs1]] else [])
   | .csr .rw 0 rs1 c => [[.word "csrw", .csr c, .reg rs1]]
-  | .csr .rs 0 rs1 c => [[.word "csrs", .csr c, .reg rs1]]
   | .csr .rc 0 rs1 c => [[.word "csrc", .csr c, .reg rs1]]
   | .csri .rw 0 u c => [[.word "csrwi", .csr c, .imm u]]
   | .csri .rs 0 u c => [[.word "csrsi", .csr c, .imm u]]
